@@ -3,6 +3,8 @@ package world
 import (
 	"encoding/json"
 	"fmt"
+	"os"
+	"path/filepath"
 	"sort"
 
 	"github.com/zerx-lab/wordZero/pkg/document"
@@ -12,10 +14,64 @@ import (
 
 // TData is template data in a form that survives JSON (replay files).
 type TData struct {
-	Vars   map[string]any   `json:"v,omitempty"`
-	Conds  map[string]bool  `json:"c,omitempty"`
-	Lists  map[string][]any `json:"l,omitempty"`
-	Images map[string][]int `json:"i,omitempty"` // name -> format, w, h, pixel seed
+	Vars  map[string]any   `json:"v,omitempty"`
+	Conds map[string]bool  `json:"c,omitempty"`
+	Lists map[string][]any `json:"l,omitempty"`
+	// name -> format, w, h, pixel seed [, size mode (0 nil config, 1 w+h, 2 w keep aspect, 3 h keep aspect, 4 config without size,
+	// 5 config that already carries an alt text), width mm, height mm, via (0 SetImageFromData, 1 SetImage from a file,
+	// 2 SetImageWithDetails with data, 3 SetImageWithDetails with a file)]; short entries mean nil config through SetImageFromData
+	Images map[string][]int `json:"i,omitempty"`
+}
+
+// TplImageSpec draws the optional part of a template image entry: how the image reaches the data object and with which configuration.
+func TplImageSpec(r *sim.Rand, base []int) []int {
+	mode := r.Pick2(0, 0, 1, 2, 3, 4, 5)
+	return append(append([]int{}, base...), mode, r.Range(5, 80), r.Range(5, 80), r.Pick2(0, 0, 1, 2, 2, 3))
+}
+
+func (d *TData) imgField(name string, i int) int {
+	if v := d.Images[name]; len(v) > i {
+		return v[i]
+	}
+	return 0
+}
+
+// ImageMode, ImageMM and ImageAlt describe a template image entry for the models: size mode (as the "img" operations number
+// them; 0 = pixel size), the requested millimetres, and the alt text the picture must carry ("" when none is given).
+func (d *TData) ImageMode(name string) int {
+	if m := d.imgField(name, 4); m >= 1 && m <= 3 {
+		return m
+	}
+	return 0
+}
+func (d *TData) ImageMM(name string) (float64, float64) {
+	return float64(d.imgField(name, 5)), float64(d.imgField(name, 6))
+}
+func (d *TData) ImageAlt(name string) string {
+	if via := d.imgField(name, 7); via == 2 || via == 3 {
+		return fmt.Sprintf("tplalt-%s-%d", name, d.imgField(name, 3))
+	}
+	if d.imgField(name, 4) == 5 {
+		return "cfgalt-" + name
+	}
+	return ""
+}
+
+func (d *TData) imageConfig(name string) *document.ImageConfig {
+	wmm, hmm := d.ImageMM(name)
+	switch d.imgField(name, 4) {
+	case 1:
+		return &document.ImageConfig{Size: &document.ImageSize{Width: wmm, Height: hmm}}
+	case 2:
+		return &document.ImageConfig{Size: &document.ImageSize{Width: wmm, KeepAspectRatio: true}}
+	case 3:
+		return &document.ImageConfig{Size: &document.ImageSize{Height: hmm, KeepAspectRatio: true}}
+	case 4:
+		return &document.ImageConfig{Position: document.ImagePositionInline, Alignment: document.AlignLeft}
+	case 5:
+		return &document.ImageConfig{Position: document.ImagePositionInline, Alignment: document.AlignRight, AltText: "cfgalt-" + name, Title: "cfgtitle"}
+	}
+	return nil
 }
 
 func (d *TData) JSON() string {
@@ -38,8 +94,11 @@ func (d *TData) ImageBytes(name string) []byte {
 	return MakeImage(fmtNames[pickIdx(v[0], 3)], v[1], v[2], uint64(v[3]))
 }
 
-// ToLib builds a fresh library TemplateData (deep: nothing is shared with d).
-func (d *TData) ToLib() *document.TemplateData {
+// ToLib builds a fresh library TemplateData (deep: nothing is shared with d). Images that are to come from a file come from memory.
+func (d *TData) ToLib() *document.TemplateData { return d.ToLibIn("") }
+
+// ToLibIn is ToLib with a directory in which the image files of file-based entries are written (they must exist when the data is rendered).
+func (d *TData) ToLibIn(dir string) *document.TemplateData {
 	td := document.NewTemplateData()
 	var cp func(v any) any
 	cp = func(v any) any {
@@ -91,7 +150,26 @@ func (d *TData) ToLib() *document.TemplateData {
 			add(k)
 		}
 	}) {
-		td.SetImageFromData(k, d.ImageBytes(k), nil)
+		data, cfg, via := d.ImageBytes(k), d.imageConfig(k), d.imgField(k, 7)
+		path := ""
+		if (via == 1 || via == 3) && dir != "" && data != nil {
+			_ = os.MkdirAll(dir, 0o755)
+			path = filepath.Join(dir, fmt.Sprintf("%s-%d.%s", k, d.imgField(k, 3), fmtNames[pickIdx(d.imgField(k, 0), 3)]))
+			if os.WriteFile(path, data, 0o644) != nil {
+				path = ""
+			}
+		}
+		alt, title := fmt.Sprintf("tplalt-%s-%d", k, d.imgField(k, 3)), "tpltitle-"+k
+		switch {
+		case via == 1 && path != "":
+			td.SetImage(k, path, cfg)
+		case via == 3 && path != "":
+			td.SetImageWithDetails(k, path, nil, cfg, alt, title)
+		case via == 2 || via == 3:
+			td.SetImageWithDetails(k, "", data, cfg, alt, title)
+		default:
+			td.SetImageFromData(k, data, cfg)
+		}
 	}
 	return td
 }
@@ -127,7 +205,7 @@ func (w *World) opTplRender(dst *Doc, op sim.Op, o *Obs) {
 		w.Extra["loaded:"+name] = src.D
 	}
 	data := ParseTData(op.Str(0))
-	lib := data.ToLib()
+	lib := data.ToLibIn(filepath.Join(w.Tmp, "tplimg"))
 	if op.Int(3) == 1 {
 		// ONE data object for all renders of this world, as a mail merge with a shared logo uses it: the images
 		// (and every other entry) stay the objects they were at the first render, only the variables are set again
